@@ -23,6 +23,9 @@ const (
 	dkeyExt   = ".dkey"
 	ps3isoDir = "ps3iso"
 	redkeyDir = "REDKEY"
+
+	// maximum regions count which fits with header to one sector
+	maxUnencryptedRegions = (uint32(sectorSize) - 8) / 8
 )
 
 var (
@@ -74,6 +77,11 @@ func NewEncryptedISO(f afero.File, data1 []byte, clearRegions bool) (*EncryptedI
 	err = binary.Read(f, binary.BigEndian, &hdr)
 	if err != nil {
 		return nil, fmt.Errorf("read unencrypted regions count failed: %w", err)
+	}
+
+	// regions map is located in the first sector
+	if hdr.Count > maxUnencryptedRegions {
+		return nil, fmt.Errorf("unexpected unencrypted regions count (%d)", hdr.Count)
 	}
 
 	unencryptedRegions := make([]unencryptedRegion, hdr.Count)
